@@ -54,6 +54,7 @@ V3 == Val(<<"t", "-", "y", "]">>, <<1, 2, 3, 4>>, {[p |-> 2, x |-> "t", qx |-> 4
 V4 == Val(<<"g">>, <<5>>, {})
 StartsQuick    == {<<V1>>, <<V2>>, <<V1, V2>>}
 StartsThorough == {<<V1>>, <<V2>>, <<V3>>, <<V4>>, <<V1, V2>>, <<V3, V2>>, <<V1, V1>>}
+StartsDeep     == {<<V1>>}
 NewValsQuick == {V2}
 NewValsThorough == {V2, V4}
 
